@@ -28,13 +28,21 @@ theorem C01_agents_shuffle_draws {α : Type} (l : List α) (g : Rng) :
 
 /-- `AgentSet.shuffle` on the store: the resulting order and the remaining draws are a function of the ordered members
     of the set and the draws alone — two stores that differ in everything else (attributes, other sets, dead agents, the
-    in-place flag) produce the same order and leave the same draws. -/
+    in-place flag) produce the same order and leave the same draws; the set the call returns (the set itself for
+    `inplace=True`, the new one otherwise) holds exactly `Rng.shuffle` of the members, whichever flag. -/
 theorem C01_agents_shuffle_function_of_members_and_script (st st' : Store) (s s' : Nat) (i i' : Bool)
     (hm : st.get s = st'.get s') (hg : st.rng = st'.rng) :
     (shuffle st s i).1.rng = (shuffle st' s' i').1.rng ∧
     ((shuffle st s false).1.sets.getLast? = (shuffle st' s' false).1.sets.getLast?) ∧
-    (shuffle st s i).1.rng.script = st.rng.script.drop ((st.get s).length - 1) := by
-  refine ⟨?_, ?_, ?_⟩
+    (shuffle st s i).1.rng.script = st.rng.script.drop ((st.get s).length - 1) ∧
+    (s < st.sets.length → s' < st'.sets.length →
+      (shuffle st s i).1.get (shuffle st s i).2 = (Rng.shuffle (st.get s) st.rng).1 ∧
+      (shuffle st s i).1.get (shuffle st s i).2 = (shuffle st' s' i').1.get (shuffle st' s' i').2) := by
+  have hres : ∀ (st : Store) (s : Nat) (i : Bool), s < st.sets.length →
+      (shuffle st s i).1.get (shuffle st s i).2 = (Rng.shuffle (st.get s) st.rng).1 := by
+    intro st s i hs
+    cases i <;> simp [shuffle, Store.put, Store.get, hs]
+  refine ⟨?_, ?_, ?_, fun hs hs' => ⟨hres st s i hs, by rw [hres st s i hs, hres st' s' i' hs', hm, hg]⟩⟩
   · simp only [shuffle, put_rng, hm, hg]
   · simp only [shuffle, Store.put, hm, hg]
     simp
